@@ -26,3 +26,7 @@ func Acquire() {}
 
 // Release is the counterpart of Acquire.
 func Release(_ string) {}
+
+// TimerSlack is added to zero-length waits of polling loops. It is zero in
+// shipped builds; under simulation it models that real timers fire late.
+const TimerSlack = 0
